@@ -84,3 +84,8 @@ def req_meta_bytes(cfg, img, off, ln):
     if cfg["fixed"]:
         return 0
     return 8 * (ln // cfg["block"] + 2) + 2048
+
+
+def meta_model(cfg):
+    return (cfg['block'], 8, 2048)
+    # (guest bytes covered by one second-level table, bytes of one such table, bytes of the top-level table read lazily)
